@@ -34,6 +34,22 @@ def k(c):
 '''
 
 
+def immutable_ctor(v: ast.Call, tree: ast.Module) -> bool:
+    """A module-level call that builds an immutable value: a NamedTuple / enum class of the module, or tuple/frozenset/bytes/str/int."""
+    name = norm(v.func).split(".")[-1]
+    if name in ("tuple", "frozenset", "bytes", "str", "int", "float", "bool", "object"):
+        return name != "object" or True
+    for st in tree.body:
+        if isinstance(st, ast.ClassDef) and st.name == name:
+            bases = [norm(b).split(".")[-1] for b in st.bases]
+            if any(b in ("NamedTuple", "Enum", "IntEnum", "Flag", "IntFlag") for b in bases):
+                return True
+    return name in IMMUTABLE_IMPORTED
+
+
+IMMUTABLE_IMPORTED = {"ASN1Tag", "ASN1Header"}     # NamedTuples of asn1.py (checked against the source at run time in check())
+
+
 def module_mutables(tree: ast.Module) -> Dict[str, ast.AST]:
     """module-level names bound to something mutable (display, or a call that is not a known pure constructor)."""
     out: Dict[str, ast.AST] = {}
@@ -48,7 +64,7 @@ def module_mutables(tree: ast.Module) -> Dict[str, ast.AST]:
             continue
         if isinstance(v, (ast.List, ast.Dict, ast.Set, ast.ListComp, ast.DictComp, ast.SetComp)):
             out[tg] = st
-        elif isinstance(v, ast.Call) and norm(v.func) not in PURE_MODULE_CALLS:
+        elif isinstance(v, ast.Call) and norm(v.func) not in PURE_MODULE_CALLS and not immutable_ctor(v, tree):
             out[tg] = st
     return out
 
@@ -162,6 +178,10 @@ def check(model: Model, run: Run) -> None:
                        "I5 every options argument on the encode/decode paths is rooted at a parameter or at self._packing_options; I6 register_* refuse duplicates before "
                        "appending to the session's own list. A known-bad fixture is analysed on every run so that the zero-count rules cannot pass vacuously. "
                        "The interleaving statement itself follows from absence of shared mutable state on paper")
+    for nm in IMMUTABLE_IMPORTED:
+        c = model.classes.get(f"sansldap.asn1.{nm}")
+        if c is None or not any(b.endswith("NamedTuple") for b in c.bases):
+            raise AnalysisError(f"{nm} is no longer a NamedTuple: the immutable-constructor list of C19 must be reviewed")
     # ---- fixture: the rules must fire on it ------------------------------------------------
     ftree = ast.parse(FIXTURE)
     fw = shared_state_writes("fixture", ftree, {"Opt"})
